@@ -413,17 +413,39 @@ Proof.
   apply String.eqb_eq in H1, H2. congruence.
 Qed.
 
+Lemma str_list_eqb_refl l : list_eqb String.eqb l l = true.
+Proof. apply list_eqb_refl, String.eqb_refl. Qed.
+
+Lemma str_list_eqb_eq a b : list_eqb String.eqb a b = true -> a = b.
+Proof. apply list_eqb_eq. intros x y H. now apply String.eqb_eq. Qed.
+
+Lemma attrs_eqb_refl a : attrs_eqb a a = true.
+Proof. unfold attrs_eqb. now rewrite !Bool.eqb_reflx, !str_list_eqb_refl. Qed.
+
+Lemma attrs_eqb_eq a b : attrs_eqb a b = true -> a = b.
+Proof.
+  destruct a, b. unfold attrs_eqb. simpl. intros H.
+  repeat (apply andb_prop in H; destruct H as [H ?]).
+  repeat match goal with
+         | H : Bool.eqb _ _ = true |- _ => apply Bool.eqb_prop in H
+         | H : list_eqb String.eqb _ _ = true |- _ => apply str_list_eqb_eq in H
+         end.
+  congruence.
+Qed.
+
 Lemma xcmd_eqb_refl x : xcmd_eqb x x = true.
 Proof.
-  destruct x; simpl; [apply String.eqb_refl|].
-  rewrite String.eqb_refl. simpl. apply list_eqb_refl, pair_eqb_refl.
+  destruct x; simpl; rewrite attrs_eqb_refl, String.eqb_refl; simpl; [reflexivity|].
+  apply list_eqb_refl, pair_eqb_refl.
 Qed.
 
 Lemma xcmd_eqb_eq x y : xcmd_eqb x y = true -> x = y.
 Proof.
   destruct x, y; simpl; intros H; try discriminate.
-  - apply String.eqb_eq in H. congruence.
-  - apply andb_prop in H. destruct H as [H1 H2]. apply String.eqb_eq in H1.
+  - apply andb_prop in H. destruct H as [H0 H]. apply attrs_eqb_eq in H0.
+    apply String.eqb_eq in H. congruence.
+  - apply andb_prop in H. destruct H as [H H2]. apply andb_prop in H. destruct H as [H0 H1].
+    apply attrs_eqb_eq in H0. apply String.eqb_eq in H1.
     apply (list_eqb_eq _ pair_eqb_eq) in H2. congruence.
 Qed.
 
@@ -518,4 +540,52 @@ Proof.
   - rewrite Hm. now rewrite flat_map_map.
   - clear Hm. induction es as [|e es IH]; [reflexivity|]. simpl in *.
     apply andb_prop in Hd. destruct Hd as [H1 H2]. now rewrite H1, IH.
+Qed.
+
+(* ------------------------------------------------------------------ *)
+(* attributes: every command an entry produces carries exactly the entry's attributes *)
+
+Lemma inst_attrs c b : attrs_of (inst c b) = cattrs_of c.
+Proof. destruct c; reflexivity. Qed.
+
+Lemma expand_entry_attrs mo e x :
+  In x (expand_entry mo e) -> entry_attrs e = Some (attrs_of x).
+Proof.
+  destruct e as [y| |l a c]; simpl.
+  - intros [<-|[]]. reflexivity.
+  - intros [].
+  - intros H. apply in_map_iff in H. destruct H as [kv [<- _]]. now rewrite inst_attrs.
+Qed.
+
+Lemma expand_attrs_preserved mo e x :
+  In x (expand mo [e]) -> entry_attrs e = Some (attrs_of x).
+Proof. rewrite expand_single. apply expand_entry_attrs. Qed.
+
+Lemma expand_for_attrs mo l a c x :
+  In x (expand mo [For l a c]) -> attrs_of x = cattrs_of c.
+Proof. intros H. apply expand_attrs_preserved in H. simpl in H. congruence. Qed.
+
+(* ... and every command of the expanded list comes from one of the entries *)
+Lemma expand_in mo es x :
+  In x (expand mo es) <-> exists e, In e es /\ In x (expand_entry mo e).
+Proof. rewrite expand_flat_map. apply in_flat_map. Qed.
+
+Lemma expand_attrs_from_entry mo es x :
+  In x (expand mo es) -> exists e, In e es /\ entry_attrs e = Some (attrs_of x).
+Proof.
+  intros H. apply expand_in in H. destruct H as [e [He Hx]].
+  exists e. split; [exact He|]. now apply (expand_entry_attrs mo).
+Qed.
+
+Lemma mon_attrs_expand mo :
+  (forall kvs, Permutation (mo kvs) kvs) -> forall es, mon_attrs es (expand mo es) = true.
+Proof.
+  intros Hmo es. unfold mon_attrs. induction es as [|e es IH]; [reflexivity|].
+  rewrite expand_cons. simpl.
+  assert (Hlen : List.length (snd (spec_segment e)) = List.length (expand_entry mo e))
+    by (apply Permutation_length, expand_entry_perm, Hmo).
+  rewrite firstn_app_exact, skipn_app_exact by exact Hlen.
+  rewrite IH, andb_true_r. rewrite Hlen, Nat.eqb_refl. simpl.
+  apply forallb_forall. intros x Hx. apply expand_entry_attrs in Hx. rewrite Hx.
+  simpl. apply attrs_eqb_refl.
 Qed.
